@@ -476,7 +476,17 @@ pub fn explore(s: &Scenario, shard: usize, shards: usize, deadline: Option<Insta
         .into_inner();
     // confirm violations by replaying them twice
     let mut confirmed = vec![];
+    // (replays run to their end: the exploration's wall-clock deadline does not cut them. An
+    // enumeration inside one execution makes no hidden choice - single task, no scheduler or
+    // environment answer - and replaying it means enumerating everything again, twice: once the
+    // budget is used up its failures are taken as they are.)
+    let late = deadline.map(|d| Instant::now() > d).unwrap_or(false);
+    crate::rt::set_deadline(None);
     for v in std::mem::take(&mut acc.rep.violations) {
+        if s.loop_body && late {
+            confirmed.push(v);
+            continue;
+        }
         let o = parse_order(&v.order);
         let r1 = run_once(v.choices.clone(), o, s.params.clone(), s.body.clone());
         let r2 = run_once(v.choices.clone(), o, s.params.clone(), s.body.clone());
